@@ -85,6 +85,10 @@ type graph struct {
 	handlerOnEdges   map[string]map[string][]handlerPair
 	handlerPreNode   map[string][]handlerPair
 	handlerPreBranch map[string][][]handlerPair
+
+	// parkedValuePairs: from -> to -> how a value that has passed the handlers of that edge is converted for a checkpoint
+	// (only edges whose handlers change the value's type: run-time type conversion, field mappings)
+	parkedValuePairs map[string]map[string]streamConvertPair
 }
 
 type newGraphConfig struct {
@@ -138,6 +142,7 @@ func newGraph(cfg *newGraphConfig) *graph {
 		newOpts:        cfg.newOpts,
 
 		handlerOnEdges:   make(map[string]map[string][]handlerPair),
+		parkedValuePairs: make(map[string]map[string]streamConvertPair),
 		handlerPreNode:   make(map[string][]handlerPair),
 		handlerPreBranch: make(map[string][][]handlerPair),
 	}
@@ -561,6 +566,8 @@ func (g *graph) updateToValidateMap() error {
 							g.handlerOnEdges[startNode] = make(map[string][]handlerPair)
 						}
 						g.handlerOnEdges[startNode][endNode.endNode] = append(g.handlerOnEdges[startNode][endNode.endNode], g.getNodeGenericHelper(endNode.endNode).inputConverter)
+						// behind the converter the value has the end node's input type
+						g.setParkedValuePair(startNode, endNode.endNode, g.getNodeGenericHelper(endNode.endNode).inputStreamConvertPair)
 					}
 					continue
 				}
@@ -576,6 +583,8 @@ func (g *graph) updateToValidateMap() error {
 						transform: streamFieldMap(endNode.mappings),
 					})
 					g.fieldMappingRecords[endNode.endNode] = append(g.fieldMappingRecords[endNode.endNode], endNode.mappings...)
+					// behind a field mapping the value is the map of mapped fields
+					g.setParkedValuePair(startNode, endNode.endNode, defaultStreamConvertPair[map[string]any]())
 
 					// field mapping check
 					checker, err := validateFieldMapping(g.getNodeOutputType(startNode), g.getNodeInputType(endNode.endNode), endNode.mappings)
@@ -594,6 +603,13 @@ func (g *graph) updateToValidateMap() error {
 	}
 
 	return nil
+}
+
+func (g *graph) setParkedValuePair(from, to string, pair streamConvertPair) {
+	if _, ok := g.parkedValuePairs[from]; !ok {
+		g.parkedValuePairs[from] = make(map[string]streamConvertPair)
+	}
+	g.parkedValuePairs[from][to] = pair
 }
 
 func (g *graph) getNodeGenericHelper(name string) *genericHelper {
@@ -826,7 +842,7 @@ func (g *graph) compile(ctx context.Context, opt *graphCompileOptions) (*composa
 		}
 		inputPairs[END] = r.outputStreamConvertPair
 		outputPairs[START] = r.inputStreamConvertPair
-		r.checkPointer = newCheckPointer(inputPairs, outputPairs, opt.checkPointStore)
+		r.checkPointer = newCheckPointer(inputPairs, outputPairs, g.parkedValuePairs, opt.checkPointStore)
 
 		r.interruptBeforeNodes = opt.interruptBeforeNodes
 		r.interruptAfterNodes = opt.interruptAfterNodes
